@@ -80,6 +80,21 @@ Proof. exact applySpace_source_is_model. Qed.
 Theorem C05_applySpace_source_is_within_the_language : program_known applySpace_src = true.
 Proof. vm_compute. reflexivity. Qed.
 
+
+(* ... hence the theorems about the model are theorems about the translated source: running the source of
+   applySpace emits the requested number of line breaks, minus one when the cursor sits directly after a
+   line break, and leaves the state untouched when that number is zero *)
+Theorem C05_translated_applySpace_emits_the_requested_breaks :
+  forall s kind id pos sp,
+  let s' := e_rs (exec_list applySpace_src (space_env s kind id pos sp)) in
+  let want := newlines_of (if is_bad_kind kind && String.eqb pos "After" then SEmptyLine else sp) in
+  let n := Z.max 0 (want - (if Z.eqb (cursor s) (atnl s) then 1 else 0)) in
+  nlines s' = nlines s + n /\ (0 < n -> cursor s' = atnl s') /\ (n = 0 -> s' = s).
+Proof.
+  intros s kind id pos sp. cbv zeta.
+  rewrite (proj1 (applySpace_source_is_model s kind id pos sp)). apply apply_space_count.
+Qed.
+
 Print Assumptions C05_spacing_brackets_node.
 Print Assumptions C05_cursor_advances_only_over_what_is_printed.
 Print Assumptions C05_apply_space_count.
@@ -87,3 +102,4 @@ Print Assumptions C05_sibling_spacing.
 Print Assumptions C05_trailing_line_comment_neutral.
 Print Assumptions C05_applySpace_source_computes_the_model.
 Print Assumptions C05_applySpace_source_is_within_the_language.
+Print Assumptions C05_translated_applySpace_emits_the_requested_breaks.
